@@ -134,7 +134,7 @@ Proof.
   - cbn [map] in H1. apply all_some_inv in H1 as [g [gs' [Hy [H1 ->]]]].
     cbn [map] in H2. apply all_some_inv in H2 as [tk [toks' [Ht [H2 ->]]]].
     cbn [seg_groups]. change (k_gba sq_k) with true. cbv iota.
-    rewrite (gitem_text sq_k (mk_k (kc kk) (k_abs kk) true) srcs w clause_subq_groupby sels y g tk eq_refl Hy Ht). cbn [bind]. rewrite (IH _ _ H1 H2). reflexivity.
+    rewrite (gitem_text sq_k kk srcs w clause_subq_groupby sels y g tk eq_refl Hy Ht). cbn [bind]. rewrite (IH _ _ H1 H2). reflexivity.
 Qed.
 
 Lemma flat_orders_text kk srcs w sels : forall ob os toks,
@@ -200,20 +200,17 @@ Proof.
       rewrite Hs. cbn [bind]. eexists. split; [reflexivity|]. cbn [map]. rewrite Hm. f_equal.
 Qed.
 
-Lemma name_joins_length base : forall l own, List.length (fst (name_joins base own l)) = List.length l.
+Lemma name_joins_length base : forall l taken own, List.length (fst (name_joins base taken own l)) = List.length l.
 Proof.
-  induction l as [|[[h s] c] l IH]; intros own; [reflexivity|].
+  induction l as [|[[h s] c] l IH]; intros taken own; [reflexivity|].
   cbn [name_joins]. destruct s as [t|x|n].
-  - specialize (IH own). destruct (name_joins base own l). cbn in *. congruence.
-  - destruct (qalias x).
-    + specialize (IH own). destruct (name_joins base own l). cbn in *. congruence.
-    + destruct x.
-      * specialize (IH (S own)). destruct (name_joins base (S own) l). cbn in *. congruence.
-      * specialize (IH own). destruct (name_joins base own l). cbn in *. congruence.
-      * specialize (IH own). destruct (name_joins base own l). cbn in *. congruence.
-      * specialize (IH own). destruct (name_joins base own l). cbn in *. congruence.
-      * specialize (IH own). destruct (name_joins base own l). cbn in *. congruence.
-  - specialize (IH own). destruct (name_joins base own l). cbn in *. congruence.
+  - match goal with |- context [name_joins base ?tk ?ow l] => specialize (IH tk ow); destruct (name_joins base tk ow l) end.
+    cbn in *. congruence.
+  - destruct (qalias x);
+      match goal with |- context [name_joins base ?tk ?ow l] => specialize (IH tk ow); destruct (name_joins base tk ow l) end;
+      cbn in *; congruence.
+  - match goal with |- context [name_joins base ?tk ?ow l] => specialize (IH tk ow); destruct (name_joins base tk ow l) end.
+    cbn in *. congruence.
 Qed.
 
 Lemma opt_text kw kk srcs c o oe ts pre : wa c = false -> skw_text kw = pre ->
@@ -256,9 +253,9 @@ Proof.
   cbn [flat_of] in HF. destruct c; try discriminate. destruct withs; [|discriminate]. destruct fu; [discriminate|].
   destruct al; [discriminate|].
   unfold str_query. cbn [top_cls]. rewrite rquery_QSel. unfold sel_text.
-  pose proof (name_joins_length (base_tables from) joins (snd (name_from sub_count 0 from))) as HL.
-  destruct (name_from sub_count 0 from) as [fnames n1]. cbn [snd] in HL.
-  destruct (name_joins (base_tables from) n1 joins) as [jnames n2]. cbn [fst] in HL.
+  pose proof (name_joins_length (base_tables from) joins (src_names from (fst (name_from sub_count 0 from)) ++ map fst (@nil (string * query))) (snd (name_from sub_count 0 from))) as HL.
+  destruct (name_from sub_count 0 from) as [fnames n1]. cbn [fst snd] in HL.
+  destruct (name_joins (base_tables from) (src_names from fnames ++ map fst (@nil (string * query))) n1 joins) as [jnames n2]. cbn [fst] in HL.
   cbv zeta in HF |- *.
   set (srcs := (src_refs from fnames ++ src_refs (map (fun j => snd (fst j)) joins) jnames)%list) in *.
   set (w := wns_of from joins srcs wh) in *.
